@@ -176,7 +176,7 @@ func genMessage(r *rand.Rand, from, to string, maxBody int) *fbb.Message {
 	if r.Intn(4) == 0 {
 		m.AddCc([]string{"LA1B", "foo@example.com", "N0CALL@winlink.org"}[r.Intn(3)])
 	}
-	subjects := []string{"Hello", "Test message", "//WL2K Z/ flash traffic", "//WL2K O/ immediate", "//WL2K P/ priority", "Blåbærsyltetøy på brødskiva", "Re: =?x", "a", strings.Repeat("long subject ", 8)}
+	subjects := []string{"Hello", "Test message", "//WL2K Z/ flash traffic", "//WL2K O/ immediate", "//WL2K P/ priority", "Blåbærsyltetøy på brødskiva", "Re: =?x", "a", strings.Repeat("long subject ", 8), "Fuel at 50% of capacity", "100%d %s%v %!x %%", "%"}
 	subj := subjects[r.Intn(len(subjects))]
 	if r.Intn(8) == 0 {
 		// the longest non-ASCII subjects Message.Validate admits (the Subject header may have 128 bytes)
